@@ -150,6 +150,10 @@ class OrientedLine:
       return False
     return (self.name == other.name) and (self.orient == other.orient)
 
+  def __deepcopy__(self, memo):
+    # (a new oriented reference to the same line)
+    return OrientedLine(self.__line, self.__orient)
+
   # Delegate methods to the line
   def __getattr__(self, name):
     return getattr(self.__line, name)
